@@ -435,6 +435,13 @@ class IMAPClientCommand:
         #
         self.fetch_peek = True
 
+        # `forced_expunge` is set on the EXPUNGE commands that MOVE and the
+        # POP3 server queue at a mailbox: they remove messages by uid no
+        # matter what is in the `Deleted` sequence, so unlike an ordinary
+        # EXPUNGE they always conflict with other running commands.
+        #
+        self.forced_expunge = False
+
         # NOTE: This attribute is set by the mbox's management task before the
         #       task is allowed to run (since it needs the context of a mbox to
         #       know the max seq and how to map uid's to IMAP message sequence
